@@ -21,7 +21,7 @@ EDGES = [1023, 1024, 1025, 2047, 2048, 2049, 3071, 3072]
 
 def gen_body(rng):
     kind = rng.randint(0, 7)
-    n = rng.choice([0, 1, 2, 5, 100, 1023, 1024, 1025, 2048, 3000, 5000, rng.randint(0, 5000)])
+    n = rng.choice([0, 1, 2, 5, 100, 1023, 1024, 1025, 2048, 3000, 5000, rng.randint(0, 5000), 8191, 8193, 9000, 17000])
     if kind == 0:
         return b"x" * n                                # no newline at all
     if kind == 1:
